@@ -44,7 +44,7 @@ pub fn lookup_prog(r: &mut Rng, n_tables: usize, counts: &[usize], slots: usize)
             if k < 3 || k + 1 == cnt { ops.push(Op::Public(ops.len() - 1)); }
         }
     }
-    Prog { ops, tables }
+    Prog { ops, tables, skip_connect: false }
 }
 
 pub fn emit(e: &mut Emitter, seed: u64, thorough: bool) {
